@@ -35,3 +35,6 @@ pub(crate) const LOW_INDEX: usize = TIME_TRACE_SIZE * 9 / 10;
 pub(crate) const LOG_TARGET_RELAY: &str = "ckb_relay";
 
 pub(crate) const LOG_TARGET_FILTER: &str = "ckb_filter";
+
+#[cfg(feature = "verif-hooks")]
+pub use crate::relayer::verif;
